@@ -160,10 +160,16 @@ func c01PositionGate(c *Check, ci *cryptoInfo, vs []*verifier, v *verifier) {
 				return false
 			}
 			for i, a := range g.Call.Args {
-				if _, isF := loadOfFieldVar(a, f); !isF {
-					continue
+				_, isF := loadOfFieldVar(a, f)
+				var viaField *types.Var
+				if !isF {
+					// a helper method of the same container: the proof travels inside the receiver
+					if i != 0 || h.Signature.Recv() == nil || derefNamed(h.Signature.Recv().Type()) != v.recvT || !backSlice(a, SliceOpt{}).Vals[fn.Params[0]] {
+						continue
+					}
+					viaField = f
 				}
-				for _, j := range startEndBoundParams(h, i) {
+				for _, j := range startEndBoundParamsVia(h, i, viaField) {
 					if j < len(g.Call.Args) && sliceHasAnyParam(backSlice(g.Call.Args[j], SliceOpt{CallArgs: true}), fn, v.req) {
 						return true
 					}
@@ -224,6 +230,12 @@ func isEqualityTest(cond ssa.Value) bool {
 // startEndBoundParams: indexes j of h's parameters such that h rejects unless
 // Start()/End() of its proofIdx-th parameter matches a value derived from parameter j.
 func startEndBoundParams(h *ssa.Function, proofIdx int) []int {
+	return startEndBoundParamsVia(h, proofIdx, nil)
+}
+
+// startEndBoundParamsVia: as startEndBoundParams; with viaField set, the proof is the
+// field viaField of the proofIdx-th parameter (a container passed as receiver).
+func startEndBoundParamsVia(h *ssa.Function, proofIdx int, viaField *types.Var) []int {
 	if proofIdx >= len(h.Params) {
 		return nil
 	}
@@ -243,6 +255,11 @@ func startEndBoundParams(h *ssa.Function, proofIdx int) []int {
 			o := calleeObj(&g.Call)
 			if o == nil || pkgPathOf(o) != pkgNmt || (o.Name() != "Start" && o.Name() != "End") || len(g.Call.Args) == 0 {
 				return false
+			}
+			if viaField != nil {
+				if _, isF := loadOfFieldVar(g.Call.Args[0], viaField); !isF {
+					return false
+				}
 			}
 			return backSlice(g.Call.Args[0], SliceOpt{}).Vals[pp]
 		})
@@ -387,6 +404,31 @@ func c01NoIgnoredVerdict(c *Check, ci *cryptoInfo, vs []*verifier, v *verifier) 
 				isVerdict = true
 			}
 			if !isVerdict {
+				// any other call in a verifier that can fail: its error gates success (an error that is
+				// overwritten by a later call before it is tested lets a failed step pass)
+				sig := cl.Call.Signature()
+				nr := sig.Results().Len()
+				if nr == 0 || !isErrorType(sig.Results().At(nr-1).Type()) {
+					continue
+				}
+				if o := calleeObj(&cl.Call); o != nil && (pkgPathOf(o) == "fmt" || pkgPathOf(o) == "errors") {
+					continue
+				}
+				delegated := false
+				for _, r := range returnsOf(fn) {
+					for _, rv := range r.Results {
+						if isErrorType(rv.Type()) && succ[r.Block()] && backSlice(rv, SliceOpt{}).Vals[cl] {
+							delegated = true
+						}
+					}
+				}
+				if delegated {
+					continue
+				}
+				n++
+				res3 := gateWalkFrom(p, fn, cl.Block(), succ, verdictPassCut(cl, false), nil)
+				c.Ob("R1.3", fmt.Sprintf("%s:call:%s:error gates success", v.name(), calleeName(cl)), !res3.Reached, p.Pos(cl.Pos()),
+					"from this call, a success return is reachable only across the nil edge of a test of its own error result", res3.Witness...)
 				continue
 			}
 			rt := cl.Type()
